@@ -2265,6 +2265,9 @@ def _const_int(v, module, depth=0):
         return None
     if isinstance(v, ast.Constant) and type(v.value) is int:
         return v.value
+    if isinstance(v, ast.UnaryOp) and isinstance(v.op, (ast.USub, ast.UAdd)):
+        a = _const_int(v.operand, module, depth + 1)
+        return None if a is None else (-a if isinstance(v.op, ast.USub) else a)
     if isinstance(v, ast.BinOp) and isinstance(v.op, (ast.Add, ast.Sub, ast.Mult)):
         a, b = _const_int(v.left, module, depth + 1), _const_int(v.right, module, depth + 1)
         if a is None or b is None:
@@ -3042,7 +3045,8 @@ class Canon:
             else:
                 k_ = _const_int(v, module)
                 if k_ is not None:
-                    consts[name] = ast.copy_location(ast.Constant(k_), v)        # integer arithmetic over literals and lengths of literal constants
+                    # integer arithmetic over literals and lengths of literal constants (a negative one as the parser writes it: -N)
+                    consts[name] = ast.copy_location(ast.Constant(k_) if k_ >= 0 else ast.UnaryOp(op=ast.USub(), operand=ast.Constant(-k_)), v)
         # members of a private IntFlag / IntEnum class the tables do not know: the integers they are
         members = {}
         for cname, c in module.classes.items():
